@@ -145,6 +145,12 @@ func FitCase(mode string, vb ivg.ViewBox, dx, dy, ax, ay float32) string {
 }
 
 func RunFit(mode string, vb ivg.ViewBox, dx, dy, ax, ay float32) string {
+	// the placement is a function of its arguments: what was asked BEFORE must not matter.  Each case is preceded by the
+	// same question about another viewBox — same target and alignment, another aspect ratio (round 5, C12-I: a memo of
+	// the last placement keyed without the viewBox)
+	other := ivg.ViewBox{MinX: vb.MinX, MinY: vb.MinY, MaxX: vb.MaxX + (vb.MaxX-vb.MinX)*2 + 1, MaxY: vb.MaxY}
+	other.AspectMeet(dx, dy, ax, ay)
+	other.AspectSlice(dx, dy, ax, ay)
 	switch mode {
 	case "size":
 		w, h := vb.Size()
